@@ -1,8 +1,8 @@
 #!/bin/bash
 # process_seed.sh <ID> : confirm the sub-agent's seeded change in its scratch worktree (/tmp/wt-<ID>/seeded/1), then apply it to
 # /repo, run the property's quick check, revert, and print everything needed for the keep decision.
-ID=$1; WT=/tmp/wt-$ID; D=$WT/seeded/1
+TAG=$1; ID=${TAG:0:3}; WT=/tmp/wt-$TAG; D=$WT/seeded/1
 ap=$(python3 -c "import json;print(json.load(open('$D/meta.json')).get('demo_append_to',''))")
-if [ -n "$ap" ]; then /verif/tools/confirm_seed_unit.sh $WT 1 $WT/$ap zz_demo_seed; else /verif/tools/confirm_seed.sh $WT 1; fi
+if [ -n "$ap" ] && { [ $ID = C17 ] || [ $ID = C18 ]; }; then /verif/tools/confirm_seed_sdp.sh $WT 1 $WT/$ap zz_demo_seed; elif [ -n "$ap" ]; then /verif/tools/confirm_seed_unit.sh $WT 1 $WT/$ap zz_demo_seed; else /verif/tools/confirm_seed.sh $WT 1; fi
 git -C $WT status --short | grep -v seeded
 /verif/tools/try_seeded.sh $ID $D/patch.diff ${2:-quick}
